@@ -89,6 +89,9 @@ def _crop_alignment(ex, st, post, result):
     if ok:
         box = crops[0][1].args[0]
         cx0, cy0 = to_int(box.items[0]), to_int(box.items[1])
+        if pastes and not hasattr(pastes[0][1].args[1], 'items'):
+            yield ('crop_origin_minus_paste_is_crop_coord', z3.BoolVal(False), 'paste(image, (x, y)): the position is a coordinate pair')
+            return
         if pastes:
             p = pastes[0][1].args[1]
             px, py = to_int(p.items[0]), to_int(p.items[1])
@@ -96,10 +99,22 @@ def _crop_alignment(ex, st, post, result):
         else:
             px, py = z3.IntVal(0), z3.IntVal(0)
         goal = z3.And(goal, cx0 - px == minx, cy0 - py == miny, px >= 0, py >= 0)
-        # the crop box is the requested window clipped to the meta image
-        w = to_int(box.items[2]) - cx0
-        h = to_int(box.items[3]) - cy0
-        goal = z3.And(goal, w <= to_int(ts.items[0]), h <= to_int(ts.items[1]))
+        # the crop box is EXACTLY the requested window clipped to the meta image (both corners, both axes) ...
+        self_ = post.env['self']
+        msz = ex.opaque_field(st, st.heap[self_.ref]['meta_img'], 'size')
+        W, H = to_int(msz.items[0]), to_int(msz.items[1])
+        maxx, maxy = minx + to_int(ts.items[0]), miny + to_int(ts.items[1])
+
+        def zmax(a, b):
+            return z3.If(a >= b, a, b)
+
+        def zmin(a, b):
+            return z3.If(a <= b, a, b)
+        cx1, cy1 = to_int(box.items[2]), to_int(box.items[3])
+        goal = z3.And(goal, cx0 == zmax(minx, 0), cy0 == zmax(miny, 0), cx1 == zmin(maxx, W), cy1 == zmin(maxy, H))
+        # ... and the window is taken without the paste step only if it lies completely inside the image
+        inside = z3.And(minx >= 0, miny >= 0, maxx <= W, maxy <= H)
+        goal = z3.And(goal, z3.BoolVal(bool(pastes)) == z3.Not(inside))
     yield ('crop_origin_minus_paste_is_crop_coord', goal,
            'TileSplitter.get_tile: the cropped window, pasted (if it overlaps the border) at abs(min(crop, 0)), keeps every '
            'pixel at its position relative to the requested crop coordinate')
@@ -317,3 +332,155 @@ def _fi_new_query(ex, st, post, result):
 
 _ct = __import__('pyvc.api', fromlist=['REG']).REG.contracts['mapproxy.client.wms:WMSInfoClient._get_transformed_query']
 _ct['trace'] = list(_ct['trace']) + [_fi_new_query]
+
+
+# ---- TiledImage: the mosaic keeps its georeference on the way into the transformer ------------------------------------------
+cls('mapproxy.image.tile:TiledImage', fields=dict(tiles='opaque', tile_grid='opaque', tile_size='opaque', src_bbox='opaque', src_srs='opaque'))
+
+
+def _tiled_transform(ex, st, post, result):
+    import z3
+    from pyvc.values import eq
+    h = st.heap[post.env['self'].ref]
+    it = [e for i, e in T.evs(st, 'ImageTransformer')]
+    im = [e for i, e in T.evs(st, 'image', 'TiledImage.image')]
+    tr = [e for i, e in T.evs(st, 'transform')]
+    ok = len(it) == 1 and len(im) == 1 and len(tr) == 1 and tr[0].recv is not None and tr[0].recv.t.eq(it[0].result.t) \
+        and len(tr[0].args) == 5 and tr[0].args[0] is im[0].result and result is tr[0].result
+    goal = z3.BoolVal(bool(ok))
+    if ok:
+        goal = z3.And(goal, eq(it[0].args[0], h['src_srs']), eq(it[0].args[1], post.env['req_srs']),
+                      eq(tr[0].args[1], h['src_bbox']), eq(tr[0].args[2], post.env['out_size']), eq(tr[0].args[3], post.env['req_bbox']))
+    yield ('mosaic_transformed_from_its_own_bbox_to_the_request', goal,
+           'ImageTransformer(self.src_srs, req_srs).transform(self.image(..), self.src_bbox, out_size, req_bbox, ..): source and '
+           'destination georeference are never swapped or replaced')
+
+
+def _tiled_merge(ex, st, post, result):
+    import z3
+    from pyvc.values import eq
+    h = st.heap[post.env['self'].ref]
+    tm = [e for i, e in T.evs(st, 'TileMerger')]
+    mg = [e for i, e in T.evs(st, 'merge')]
+    ok = len(tm) == 1 and len(mg) == 1 and mg[0].recv is not None and mg[0].recv.t.eq(tm[0].result.t) and result is mg[0].result
+    goal = z3.BoolVal(bool(ok))
+    if ok:
+        goal = z3.And(goal, eq(tm[0].args[0], h['tile_grid']), eq(tm[0].args[1], h['tile_size']), eq(mg[0].args[0], h['tiles']))
+    yield ('mosaic_built_from_own_grid_and_tiles', goal, 'TileMerger(self.tile_grid, self.tile_size).merge(self.tiles, ..)')
+
+
+contract('mapproxy.image.tile:TiledImage.transform', props=['C01'],
+         types=dict(req_bbox='opaque', req_srs='opaque', out_size='opaque', image_opts='opaque'), returns='opaque',
+         default_callee='opaque', opaque_spec={'ImageTransformer': {'pure': True}, 'image': {'pure': True}, 'transform': {'pure': True}},
+         opaque=['ImageTransformer', 'image', 'transform'],
+         trace=[_tiled_transform])
+contract('mapproxy.image.tile:TiledImage.image', props=['C01'],
+         types=dict(image_opts='opaque'), returns='opaque', default_callee='opaque',
+         opaque_spec={'TileMerger': {'pure': True}, 'merge': {'pure': True}}, opaque=['TileMerger', 'merge'],
+         trace=[_tiled_merge])
+
+
+def _transform_dispatch(ex, st, post, result):
+    import z3
+    from pyvc.values import eq
+    e_ = post.env
+    nt = [e for i, e in T.evs(st, '_no_transformation_needed', 'ImageTransformer._no_transformation_needed')]
+    si = [e for i, e in T.evs(st, '_transform_simple', 'ImageTransformer._transform_simple')]
+    fu = [e for i, e in T.evs(st, '_transform', 'ImageTransformer._transform')]
+    h = st.heap[e_['self'].ref]
+    same = eq(h['src_srs'], h['dst_srs'])
+    ok = len(nt) == 1 and len(si) + len(fu) <= 1
+    goal = z3.BoolVal(bool(ok))
+    if ok:
+        skip = ex.truth(st, nt[0].result)
+        a = [x for x in nt[0].args if x is not e_['self']]
+        goal = z3.And(goal, z3.BoolVal(len(a) == 4 and a[1] is e_['src_bbox'] and a[2] is e_['dst_size'] and a[3] is e_['dst_bbox']),
+                      eq(a[0], ex.opaque_field_at(st, nt[0], e_['src_img'], 'size')) if len(a) == 4 else z3.BoolVal(False))
+        if not si and not fu:
+            goal = z3.And(goal, skip, z3.BoolVal(result is e_['src_img']))
+        for c in si + fu:
+            b = [x for x in c.args if x is not e_['self']]
+            goal = z3.And(goal, z3.Not(skip), same == z3.BoolVal(c in si),
+                          z3.BoolVal(len(b) == 5 and b[0] is e_['src_img'] and b[1] is e_['src_bbox'] and b[2] is e_['dst_size']
+                                     and b[3] is e_['dst_bbox'] and result is c.result))
+    yield ('transform_dispatch', goal,
+           'the source image itself is returned only if _no_transformation_needed(src size, src_bbox, dst_size, dst_bbox); otherwise '
+           'the crop/scale path exactly when both SRS are the same and the mesh reprojection otherwise, with (src_img, src_bbox, '
+           'dst_size, dst_bbox) in that order')
+
+
+contract('mapproxy.image.transform:ImageTransformer.transform', props=['C01'],
+         types=dict(src_img='opaque', src_bbox='opaque', dst_size='opaque', dst_bbox='opaque', image_opts='opaque'), returns='opaque',
+         default_callee='opaque', opaque_fields={'size': 'opaque', 'cacheable': 'opaque'}, stable_fields=['size'],
+         opaque_spec={'_no_transformation_needed': {'returns': 'bool', 'pure': True}, '_transform_simple': {'pure': True},
+                      '_transform': {'pure': True}},
+         opaque=['_no_transformation_needed', '_transform_simple', '_transform'],
+         trace=[_transform_dispatch])
+
+
+def _mosaic_paste(ex, st, k):
+    """tile k of the row-major list is pasted - once, unresampled - at _tile_offset(k) of the mosaic"""
+    import z3
+    from pyvc.values import eq, to_int, VSeq
+    evs_ = st.trace[getattr(st, 'iter_start_trace', 0):]
+    src = st.env['source']
+    ai = [e for e in evs_ if e.name == 'as_image' and not e.raised]
+    off = [e for e in evs_ if e.name in ('_tile_offset', 'TileMerger._tile_offset')]
+    pa = [e for e in evs_ if e.name == 'paste' and not e.raised]
+    none_src = src.isnone if hasattr(src, 'isnone') else z3.BoolVal(False)
+    goal = z3.BoolVal(len(pa) <= 1)
+    for p in pa:
+        ok = len(ai) == 1 and len(off) == 1 and len(p.args) == 2 and p.args[0] is ai[0].result and p.args[1] is off[0].result \
+            and ai[0].recv is not None
+        goal = z3.And(goal, z3.BoolVal(bool(ok)), z3.Not(none_src))
+        if ok:
+            goal = z3.And(goal, to_int(off[0].args[-1]) == k, ai[0].recv.t == (src.val.t if hasattr(src, 'val') else src.t))
+    raised = [e for e in evs_ if e.raised]
+    if not raised:
+        # no decoding error in this iteration: a present tile IS pasted, an absent one is skipped
+        goal = z3.And(goal, none_src == z3.BoolVal(len(pa) == 0))
+        if pa:
+            # a tile that must not be cached makes the whole mosaic uncacheable
+            sc = ex.truth(st, ex.opaque_field_at(st, pa[0], src.val if hasattr(src, 'val') else src, 'cacheable'))
+            goal = z3.And(goal, z3.Implies(z3.Not(sc), z3.Not(ex.truth(st, st.env['cacheable']))))
+    yield ('tile_k_pasted_at_offset_k', goal,
+           'result.paste(ordered_tiles[k].as_image(), self._tile_offset(k)): every tile lands at the position of ITS index')
+
+
+def _mosaic_result(ex, st, post, result):
+    import z3
+    from pyvc.values import eq
+    ci = [e for i, e in T.evs(st, 'create_image')]
+    im = [e for i, e in T.evs(st, 'ImageSource')]
+    ss = [e for i, e in T.evs(st, '_src_size', 'TileMerger._src_size')]
+    if not ci:
+        # the 1x1 shortcut: the single stored tile itself is handed out (unresampled) - only for a 1 x 1 block, never None
+        from pyvc.values import to_int, opaque_is_none
+        tg = st.heap[post.env['self'].ref]['tile_grid']
+        tiles0 = post.old.env['ordered_tiles'] if getattr(post, 'old', None) is not None and 'ordered_tiles' in getattr(post.old, 'env', {}) else post.env['ordered_tiles']
+        first = tiles0.elem(z3.IntVal(0))
+        g = z3.And(to_int(tg.items[0]) == 1, to_int(tg.items[1]) == 1)
+        if hasattr(result, 't') and hasattr(first, 'val'):
+            g = z3.And(g, z3.Not(first.isnone), result.t == first.val.t)
+        elif hasattr(result, 'isnone'):
+            g = z3.And(g, z3.Not(result.isnone))
+        yield ('single_tile_shortcut', g, 'the tile itself is returned without building a mosaic only for a 1 x 1 block with a tile in it')
+        return
+    ok = len(ci) == 1 and len(im) == 1 and len(ss) == 1 and ci[0].args[0] is ss[0].result and im[0].args[0] is ci[0].result \
+        and im[0].kwargs.get('size') is ss[0].result and result is im[0].result and im[0].kwargs.get('cacheable') is st.env.get('cacheable')
+    yield ('mosaic_has_the_full_block_size', z3.BoolVal(bool(ok)),
+           'the mosaic image is created with _src_size() = (columns x tile width, rows x tile height) and returned with that size')
+
+
+contract('mapproxy.image.tile:TileMerger.merge', props=['C01'],
+         types=dict(ordered_tiles='list[opt[opaque]]', image_opts='opaque'), returns='opaque', default_callee='opaque',
+         opaque_fields={'cacheable': 'opaque'},
+         opaque_spec={'create_image': {'pure': True}, 'as_image': {'raises': ['IOError'], 'pure': True}, 'draft': {'pure': True},
+                      'paste': {'raises': ['IOError'], 'pure': True}, 'close_buffers': {'pure': True}, 'ImageSource': {'pure': True},
+                      'exists': {'returns': 'bool', 'pure': True}, 'remove': {}, 'getattr': {'pure': True},
+                      '_tile_offset': {'returns': 'tuple[int,int]', 'pure': True}, '_src_size': {'returns': 'tuple[int,int]', 'pure': True},
+                      'pop': {'pure': True}},
+         opaque=['_tile_offset', '_src_size', 'create_image'],
+         raises={'IOError': True, 'AssertionError': True},
+         loops={0: dict(inv=['implies(_k == 0, cacheable)'], types={'cacheable': 'bool'}, body_trace=[_mosaic_paste])},
+         trace=[_mosaic_result])
